@@ -319,12 +319,6 @@ Fixpoint notup (v : val) : bool :=
 (* pairs covered by the theorems: no either at all, or no tuple-of-integers at all *)
 Definition pair_dom (x y : val) : bool := (noeither x && noeither y) || (notup x && notup y).
 
-(* BEFORE the fix "isclose on integer scalars subtracts in the common type": two INTEGER scalars were
-   subtracted in their own arithmetic type before fabs (isclose.hpp:267), so with an unsigned operand
-   (size_t) the difference wrapped modulo 2^w.  Kept as the record of that behaviour; the model's scalar
-   arm is [close] (difference in common_t, which contains the eps type). *)
-Definition close_unsigned (w eps a b : Z) : bool := wrap w (a - b) <? eps.
-
 (* ---------- memory layout ----------
    An ndarray object is (layout, shape, physical buffer); apply_at(a, idx) reads buffer[layout_offset L shape idx]
    (Index.ndarray_get).  The ndarray branches above are stated on the LOGICAL row-major element list [d]; the
@@ -362,3 +356,27 @@ Definition isclose_arrL (nd : bool) (eps : Z) (L : layout) (s d : list Z) (L' : 
 (* the logical (row-major enumeration) elements of an array object *)
 Definition logical (L : layout) (s buf : list Z) : list Z :=
   map (fun k => match arr_readL L s buf k with Some v => v | None => 0 end) (zrange (prod s)).
+
+(* ---------- integer element types ----------
+   The model's elements are mathematical integers: the behaviour of a comparison carried out in a type that holds both
+   operands' values.  Every integer comparison of isequal (scalar arm, index-array loops, ndarray loop) and the scalar
+   difference of isclose are carried out in meta::common_type_t of the two element types: the WIDER width (the right
+   operand's on a tie), signed when either operand is signed.  [eq_in_type s w] is a comparison in one w-bit type,
+   [eq_common] the one the code performs.  It is exact whenever both values are representable in that type
+   (CompareProofs.eq_in_type_exact) — different widths of equal signedness, an unsigned operand narrower than the signed
+   one — and still wraps an unsigned operand that is as wide as the result (uint8 200 against int8 -56). *)
+Definition eq_in_type (signed : bool) (w a b : Z) : bool :=
+  if signed then swrap w a =? swrap w b else wrap w a =? wrap w b.
+Definition eq_common (sa : bool) (wa : Z) (sb : bool) (wb : Z) (a b : Z) : bool :=
+  eq_in_type (sa || sb) (Z.max wa wb) a b.
+Definition in_range (signed : bool) (w z : Z) : Prop :=
+  if signed then - 2 ^ (w - 1) <= z < 2 ^ (w - 1) else 0 <= z < 2 ^ w.
+
+(* ---------- utils::apply_isequal / apply_isclose, maybe/maybe arm (apply_isequal.hpp:21-31) ----------
+   has_left, has_right; equal = (has_left == has_right); the payloads are compared only when both operands hold a value *)
+Definition apply_mm (cmp : val -> val -> out) (x y : option val) : out :=
+  match x, y with
+  | Some a, Some b => cmp a b
+  | None, None => Ret true
+  | _, _ => Ret false
+  end.
